@@ -168,12 +168,21 @@ def gen_password(rng):
     return core_
 
 
+# run index -> number of rows. Pure-Python derivation costs ~25 ms per row (CLI + API twin), so the quick tier stops
+# at 200 rows; the thorough tier goes to 1100 (a hidden cap at 1000 rows is caught only there).
+LONG_INTERVALS_QUICK = {0: 200, 2: 90, 4: 40}
+LONG_INTERVALS_THOROUGH = {0: 1100, 2: 400, 4: 150, 6: 70, 8: 25}
+
+
 def gen_plan(prop, seed, tier, idx):
     from btc_hd_wallet.bip39_wordlist import word_list
     words = list(word_list)
     rng = random.Random(seed)
     batch = ["argv", "race", "argv", "io"][idx % 4]
     only_valid = batch != "argv"
+    ladder = LONG_INTERVALS_THOROUGH if tier == "thorough" else LONG_INTERVALS_QUICK
+    if prop == "C20" and idx in ladder:
+        only_valid = True            # long-interval runs: every other component valid
     paranoia_only = prop == "C15"
     if paranoia_only:
         only_valid = rng.random() < 0.85 or only_valid
@@ -227,9 +236,23 @@ def gen_plan(prop, seed, tier, idx):
             iv = [a, b]
             invalid.append("interval:%s,%s" % (a, b))
         argv += ["--interval"] + iv
+    long_iv = None
+    LONG_INTERVALS = ladder
+    if prop == "C20" and batch == "argv" and idx in LONG_INTERVALS and not invalid:
+        # the ladder of long intervals: a hidden cap on the number of rows must not go unnoticed
+        a = rng.choice([0, 0, 7])
+        long_iv = [str(a), str(a + LONG_INTERVALS[idx])]
+        if "--interval" in argv:
+            i_ = argv.index("--interval")
+            argv[i_ + 1:i_ + 3] = long_iv
+        else:
+            argv += ["--interval"] + long_iv
+        iv = long_iv
     req["interval"] = iv
     # ---- help / no command
     req["help"] = None
+    if long_iv is not None:
+        only_valid = True
     if not only_valid and rng.random() < 0.06:
         where = rng.choice(["global", "sub", "none"])
         req["help"] = where
@@ -861,7 +884,7 @@ class CliSim(Simulator):
             while checked < n_want and idx < n_want * 30:
                 seed = core.derive_seed(prop + "-fidelity", verif_seed, idx)
                 idx += 1
-                plan = gen_plan(prop, seed, tier, 0)         # idx 0 => fault-free argv batch
+                plan = gen_plan(prop, seed, tier, 4000)      # idx = 0 mod 4 => fault-free argv batch (outside the long-interval ladder)
                 req = plan["req"]
                 if req.get("command") == "new" or req.get("file_state") in ("ro_parent",):
                     continue                                  # real entropy differs; tests run as root
